@@ -874,12 +874,20 @@ fn generate_function_inner(
 
     let name = Located::none(context.get_function_name(id)?.to_string());
 
+    // Parameters for global variables follow the normal parameters so none of those may have a default value
+    // Calls to these functions receive the default values as explicit arguments instead
+    let has_parameters_for_globals = !context
+        .function_required_globals
+        .get(&id)
+        .unwrap()
+        .is_empty();
+
     let mut params = Vec::new();
     for param in &decl.params {
         params.push(generate_function_param(
             param,
             false,
-            trampoline_target,
+            trampoline_target || has_parameters_for_globals,
             context,
         )?);
     }
@@ -2583,6 +2591,23 @@ fn generate_user_call(
 
     let type_args = generate_template_type_args(tys, context)?;
     let mut args = generate_invocation_args(arguments, context)?;
+
+    // Arguments for global variables are positioned after all normal parameters
+    // Fill in the default values for arguments that were left out so the positions match
+    let module = context.module;
+    if !context
+        .function_required_globals
+        .get(&id)
+        .unwrap()
+        .is_empty()
+        && let Some(decl) = module.function_registry.get_function_implementation(id)
+    {
+        for param in decl.params.iter().skip(arguments.len()) {
+            if let Some(default_expr) = &param.default_expr {
+                args.push(Located::none(generate_expression(default_expr, context)?));
+            }
+        }
+    }
 
     // Add arguments for passing global variable references into subfunctions
     append_arguments_for_globals(&mut args, id, context);
